@@ -83,7 +83,12 @@ fn types_of(t: u8) -> Vec<Type> {
 }
 
 fn custom_sql(i: u8) -> String {
-    format!("SELECT {}", 100 + i as u32)
+    // the custom SQL is issued as given, also when it is empty or blank
+    match i % 8 {
+        6 => "".to_string(),
+        7 => "  ".to_string(),
+        _ => format!("SELECT {}", 100 + i as u32),
+    }
 }
 
 // ------------------------------------------------------------------ scripted server
@@ -596,7 +601,12 @@ async fn run_case(case: &Case, srv: Srv, out: &mut Out) {
                 let res = if txn {
                     let obj = &mut held[i].obj;
                     let started = match via % 4 {
-                        2 => obj.build_transaction().start().await,
+                        2 => match (via / 4) % 4 {
+                            1 => obj.build_transaction().read_only(true).start().await,
+                            2 => obj.build_transaction().deferrable(true).start().await,
+                            3 => obj.build_transaction().isolation_level(tokio_postgres::IsolationLevel::Serializable).read_only(false).start().await,
+                            _ => obj.build_transaction().start().await,
+                        },
                         1 => GenericClient::transaction(obj).await,
                         _ => obj.transaction().await,
                     };
